@@ -184,29 +184,30 @@ func (s *Schema) ValidateReader(r io.Reader) error {
 // ValidateData validates the given JSON data against the schema.
 func (s *Schema) ValidateData(data []byte) error {
 	var (
-		any map[string]interface{}
+		doc interface{}
 		err error
 	)
 
 	if !bytes.HasPrefix(bytes.TrimSpace(data), []byte{'{'}) {
-		err = yaml.Unmarshal(data, &any)
+		err = yaml.Unmarshal(data, &doc)
 		if err != nil {
 			return fmt.Errorf("failed to YAML unmarshal data for validation: %w", err)
 		}
-		data, err = json.Marshal(any)
+		data, err = json.Marshal(doc)
 		if err != nil {
 			return fmt.Errorf("failed to JSON remarshal data for validation: %w", err)
 		}
 	} else {
 		// the content checks below apply to JSON data just the same; if this
 		// fails to parse, the schema validation reports it
-		_ = json.Unmarshal(data, &any)
+		_ = json.Unmarshal(data, &doc)
 	}
 
 	if err := s.validate(schema.NewBytesLoader(data)); err != nil {
 		return err
 	}
 
+	any, _ := doc.(map[string]interface{})
 	return s.validateContents(any)
 }
 
@@ -308,7 +309,7 @@ func (c schemaContents) getDevices() ([]schemaContents, error) {
 
 // validateContents performs additional validation against the schema contents.
 func (s *Schema) validateContents(any map[string]interface{}) error {
-	if any == nil || s == nil {
+	if any == nil || s == nil || s.schema == nil {
 		return nil
 	}
 
